@@ -24,6 +24,13 @@ from harness.props.c20_gen import gen_Descr  # noqa: F401  (used by the runner t
 ID = "C20"
 GEN = ["Descr"]
 
+QUICK_NASTY = {
+    "ends-dquote", "ends-two-dquotes", "ends-triple-dquote", "ends-literal-backslash-dquote", "star-slash-middle",
+    "star-slash-literal-end", "backslash-end", "backslash-end-of-middle-line-literal", "windows-path-users",
+    "backslash-u-star-slash-literal", "xml-specials", "xml-cdata-end", "ctrl-0001", "ctrl-2028", "lone-cr",
+    "multi-paragraph-quotes", "constraint-field", "rejected-lone-star",
+}
+
 WRAPPERS = ["docstring", "pycomment", "go", "cpp", "java", "ts", "cs", "csesc"]
 
 # one representative per code-point class
@@ -603,6 +610,9 @@ def _whole_files(ctx: Ctx) -> None:
         ctx.note("whole-file oracle module c20_files is incomplete")
         return
     descs = list(c20_files.NASTY)
+    if ctx.tier == "quick" and not ctx.searching:
+        # the descriptions that reach a defect fixed so far (one or two per root cause) + a few of the other classes
+        descs = [d for d in descs if d[0] in QUICK_NASTY]
     for c in corpus(ID):
         if "desc" in c:
             descs.insert(0, ("corpus", c["desc"]))
